@@ -82,6 +82,24 @@ let fancy_line l =
         (String.concat "," (List.map (fun t -> string_of_int (int_of_n t.ft_id)) st.fs_tasks)))
       (f_run0 v ops)
 
+(* same line format as the harness; the depfile the command leaves = what it writes, else the stale one *)
+let task_line l =
+  match words l with
+  | showinc :: term :: stale :: written :: rsp :: chunks :: rest ->
+    let uses = stale <> "~" || written <> "~" || rest = ["d"] in
+    let file = if written <> "~" then Some (bytes_of_hex written) else if stale <> "~" then Some (bytes_of_hex stale) else None in
+    let depfile = if uses then Some (bytes_of_string "DEPFILE", file) else None in
+    let cs = if chunks = "-" then [] else List.map bytes_of_hex (String.split_on_char ',' chunks) in
+    let seen = if rsp = "~" then "~" else hex (unhex rsp) in
+    (match run_task (showinc = "1") depfile { cr_chunks = cs; cr_term = n_of_int (int_of_string term) } with
+     | Ok (t, lines) ->
+       Printf.sprintf "ok %d %s %s lines=%s rsp=%s" (int_of_n t.tr_term) (hex_of_bytes t.tr_output)
+         (match t.tr_deps with None -> "~" | Some d -> "[" ^ String.concat "," (List.map hex_of_bytes d) ^ "]")
+         (String.concat "," (List.map hex_of_bytes lines)) seen
+     | Err m -> "err " ^ hex_of_bytes m ^ " rsp=" ^ seen
+     | o -> show_outcome (fun _ -> "") o)
+  | _ -> "bad"
+
 let lossy_line l = "ok " ^ hex_of_bytes (lossy (bytes_of_hex l))
 
 let status_line l = "ok " ^ string_of_int (int_of_n (decode_status (n_of_int (int_of_string (String.trim l)))))
@@ -424,7 +442,7 @@ let suites : (string * (string -> string)) list =
     ("showincludes", showinc_line true); ("showincludes_pinned", showinc_line false);
     ("lastline", lastline_line); ("depfiledeps", depfiledeps_line);
     ("taskmsg", taskmsg_line true); ("taskmsg_pinned", taskmsg_line false);
-    ("truncate", truncate_line); ("bar", bar_line); ("fancy", fancy_line); ("lossy", lossy_line); ("status", status_line);
+    ("truncate", truncate_line); ("bar", bar_line); ("fancy", fancy_line); ("lossy", lossy_line); ("task", task_line); ("status", status_line);
     ("inv", inv_line); ("select", select_line); ("build", build_line);
     ("dbopen", dbopen_line); ("dbwrite", dbwrite_line);
     ("load", load_line); ("world", world_line); ("siphash", hash_line); ("dedup", dedup_line true); ("dedup_pinned", dedup_line false) ]
